@@ -4,7 +4,7 @@ TLC side : spec/C08/C08_MPSCanon.tla (record arithmetic of canonicalize / swaps 
            sub-MPO gates / compress_site / measure / canonical queries / sampling, the `left_inds` shortcut,
            which tensors each method rewrites and which isometries it establishes) checked against
            RecordSound / RecordInRange / FlagSound / ConsumerSound for every history of bounded depth;
-           five self-test configurations (one code deviation each = the known findings) must FAIL.
+           five self-test configurations (one deviation each: the two open known findings and three repaired ones) must FAIL.
 S->C     : behaviours simulated by TLC (model = the code as it is) are replayed on random MPS (bond 2-4,
            phys 2-3, four dtypes) threading ONE info dict; every observation is judged by
            spec/C08/C08_Trace.tla and compared with the model state (NOTE:ModelDrift).
@@ -14,6 +14,7 @@ C->S     : seeded random histories over the public API (L <= 6) and histories on
 
 import concurrent.futures as cf
 import json
+import re
 import warnings
 
 import numpy as np
@@ -27,11 +28,13 @@ ACTIONS = ("LeftCanonizeSite", "RightCanonizeSite", "Canonicalize", "ShiftCentre
            "GateSubMPO", "GateMPO", "SwapSitesA", "SwapSiteToA", "CompressSiteA", "CompressA", "Normalize",
            "TensorNormalize", "MeasureA", "BondQuery", "Magnetization", "LocalCanonical", "SampleA",
            "CallerForget", "CallerCalc")
-SELFTESTS = (("MC_dev_swap.cfg", "RecordSoundInv", "swap_sites_with_compress keeps canonicalize's record for absorb='both' (KF-C08-1)"),
+# one named deviation each; the first, third and last are what the code did before the fix: commits
+# 9081c46d / fe668b26 / fb49fbf5, the other two are the open known findings
+SELFTESTS = (("MC_dev_swap.cfg", "RecordSoundInv", "swap_sites_with_compress keeping canonicalize's record for absorb='both' (fixed in 9081c46d)"),
              ("MC_dev_sample.cfg", "RecordSoundInv", "sample / sample_configuration write the record of a dropped copy (KF-C08-2)"),
-             ("MC_dev_measure.cfg", ("RecordSoundInv", "RecordInRangeInv"), "measure(L-1, remove=True) keeps record (L-1, L-1) (KF-C08-3)"),
+             ("MC_dev_measure.cfg", ("RecordSoundInv", "RecordInRangeInv"), "measure(L-1, remove=True) keeping record (L-1, L-1) (fixed in fe668b26)"),
              ("MC_dev_outcome.cfg", "RecordSoundInv", "measure(get='outcome') writes the record of a dropped copy (KF-C08-4)"),
-             ("MC_dev_tnorm.cfg", "FlagSoundInv", "Tensor.normalize keeps the left_inds claim (KF-C08-6)"))
+             ("MC_dev_tnorm.cfg", "FlagSoundInv", "Tensor.normalize keeping the left_inds claim (fixed in fb49fbf5)"))
 SUBMPO_METHODS = ["direct", "direct", "dm", "zipup", "sdc", "fit", "src", "srcmps"]
 
 
@@ -78,8 +81,8 @@ def _op_of(act, rng, s):
         if b(0.3):
             where = where[::-1]
         return {"ev": op, "where": where, "rev": act["rev"], "inplace": b(), "unitary": b(0.7),
-                "method": str(rng.choice(["direct", "direct", "dm", "zipup", "sdc"])),
-                "via": str(rng.choice(["gate_nonlocal", "gate", "submpo"]))}
+                "method": "fit" if act.get("fit") else str(rng.choice(["direct", "direct", "dm", "zipup", "sdc"])),
+                "fit_its": int(rng.integers(0, 4)), "via": str(rng.choice(["gate_nonlocal", "gate", "submpo"]))}
     if op == "gate_with_mpo":
         return {"ev": op, "rev": act["rev"], "inplace": b()}
     if op == "swap_sites":
@@ -377,11 +380,19 @@ def run(ctx):
 
     # 1. TLC: every bounded history of the implementation-shaped model (with the minimal repairs) keeps the
     #    record sound; each code deviation alone must be found
-    with cf.ThreadPoolExecutor(max_workers=5) as ex:
+    with cf.ThreadPoolExecutor(max_workers=6) as ex:
         futs = [(cfg, want, what, ex.submit(T.run_tlc, "MC_C08", cfg, ctx.spec_dir, workers=2, allow_violation=True,
                                             scratch=ctx.scratch, timeout=600)) for cfg, want, what in SELFTESTS]
+        # random deep behaviours of the same model on 6 sites (simulation mode, invariants checked on every state)
+        deep = ex.submit(T.run_tlc, "MC_C08", "MC_deep.cfg", ctx.spec_dir, workers=1, simulate="num=%d" % (400 if quick else 4000),
+                         depth=12, seed=7 + ctx.seed, scratch=ctx.scratch, timeout=1800)
         ctx.model_check("MC_C08", "MC_quick.cfg" if quick else "MC_thorough.cfg", name="canon-histories",
                         require_actions=ACTIONS, timeout=2400, workers=8 if quick else 12)
+        rs = deep.result()
+        m = re.findall(r"The number of states generated: (\d+)", rs.output)
+        d = rs.as_dict()
+        d.update(name="deep-simulation L=6 depth<=12 (simulation mode: states checked, not distinct)", generated=int(m[-1]) if m else 0)
+        ctx.mc.append(d)
         for cfg, want, what, fu in futs:
             r = fu.result()
             want = (want,) if isinstance(want, str) else want
@@ -392,7 +403,7 @@ def run(ctx):
     trace_selftest(ctx)
 
     # 2. S->C: behaviours of the model (code as it is) replayed into quimb
-    nsim = 90 if quick else 900
+    nsim = 80 if quick else 900
     res = T.run_tlc("MC_C08", "MC_sim.cfg", ctx.spec_dir, workers=1, coverage=False, simulate="num=%d" % nsim,
                     depth=10, seed=23 + ctx.seed, scratch=ctx.scratch, timeout=1200)
     rng = np.random.default_rng(1000 + ctx.seed)
@@ -408,7 +419,7 @@ def run(ctx):
     ctx.extra["replayed_steps"] = len(recs)
 
     # 3. C->S: random histories over the public API
-    nt, ln = (170, 12) if quick else (2500, 14)
+    nt, ln = (150, 12) if quick else (2500, 14)
     wrecs = []
     for k in range(nt):
         wrecs += random_history(ctx.seed * 1000003 + k, 100000 + k, ln)
@@ -416,7 +427,7 @@ def run(ctx):
     fails += ctx.validate("C08_Trace", "Trace.cfg", wrecs, name="walk", ntraces=nt)
 
     # 4. C->S on exact states: TLC recomputes the query results from C08_Defs
-    ne, le = (70, 10) if quick else (900, 12)
+    ne, le = (60, 10) if quick else (900, 12)
     xrecs = []
     for k in range(ne):
         xrecs += exact_history(ctx.seed * 7000003 + 17 + k, 200000 + k, le)
